@@ -182,6 +182,29 @@ def run(report, tier, seed):
             dist["numeric_operand"] += 1
         report.sample({"expr": tree_str(tree), "leaves": [gen.describe(x) for x in leaves],
                        "impl": str(exp_py)[:300]})
+    # ---- array-valued exponents -------------------------------------------------------------
+    n_arr = 150 if tier == "quick" else 2500
+    arr_dist = {}
+    for k in range(n_arr):
+        s1, s2 = gen.broadcast_pair(rng, 3)
+        if rng.random() < 0.4:          # genuinely three-dimensional results
+            full = tuple(rng.choice([2, 2, 3]) for _ in range(3))
+            s1 = tuple(1 if rng.random() < 0.2 else d for d in full[rng.randint(0, 2):])
+            s2 = tuple(1 if rng.random() < 0.2 else d for d in full[rng.randint(0, 1):])
+        x = gen.rand_poly(rng, s1, gen.rand_names(rng, 2), nterms=rng.choice([1, 2]), maxexp=2)
+        size2 = int(numpy.prod(s2)) if s2 else 1
+        es = [rng.choice([0, 1, 2, 2, 3]) for _ in range(size2)]
+        e = numpy.array(es, dtype=int).reshape(s2)
+        if rng.random() < 0.3:
+            e = e.tolist()
+        exp_term, exp_py = expected_term(lambda: x ** e)
+        lay = core.as_layout(x)
+        term = f"chk_wf (zpow_arr D {core.coq_parr(lay)} {core.cnats(s2)} {core.cnats(es)}) {exp_term}"
+        cc.add(term, {"tree": "pow_array", "expr": f"x0 ** array{tuple(s2)}", "leaves": [lay],
+                      "leaf_desc": [gen.describe(x), f"exponents {es} shape {tuple(s2)}"], "impl": exp_py})
+        made += 1
+        arr_dist[len(s1), len(s2)] = arr_dist.get((len(s1), len(s2)), 0) + 1
+    dist["array_exponent_ndims"] = {str(k): v for k, v in arr_dist.items()}
     failed, errors = cc.run()
     report.coverage.update({
         "evaluations": made, "distinct_nontrivial": len(distinct),
@@ -196,8 +219,7 @@ def run(report, tier, seed):
                          {"kind": "shard-error", "shard": path, "log": log}, found_input=False)
     for idx in failed[:20]:
         term, meta = cc.cases[idx]
-        model_out = cc.eval_term("show (" + term.split(") (E")[0][len("chk_wf "):] + ")")
-        meta["model"] = model_out[-1500:]
+        meta["model"] = "(model value: evaluate `" + term.split(") (E")[0][len("chk_wf "):][:200] + "...` with vm_compute)"
         report.violation(f"C01: implementation result of {meta['expr']} differs from the exact ring value "
                          f"(model): leaves={meta['leaf_desc']}", {"kind": "correspondence", **meta})
     if not ok and not report.violations:
